@@ -542,6 +542,10 @@ var frontEndsOnce sync.Once
 var frontEndList []feSpec
 var frontEndMap = map[string]feSpec{}
 
+// betweenCheckAndWrite, when set, runs after Logger.Check has returned a CheckedEntry and before its Write (the Check front
+// end only): what was decided at Check must be written whatever happens to the levels in between.
+var betweenCheckAndWrite func()
+
 // allFrontEnds enumerates every exported log method of Logger, SugaredLogger, zapgrpc.Logger (by reflection) and
 // the std-log bridge.
 func allFrontEnds() []feSpec {
@@ -558,6 +562,9 @@ func allFrontEnds() []feSpec {
 				if n == "Check" {
 					res := reflectCall(lg, n, lp, msg, nil)
 					if ce := res[0].Interface().(*zapcore.CheckedEntry); ce != nil {
+						if betweenCheckAndWrite != nil {
+							betweenCheckAndWrite()
+						}
 						ce.Write(fs...)
 					}
 					return
